@@ -37,6 +37,7 @@ MODULE_ATTRS = {}        # (module, attr) -> factory(ex)
 EXTERNALS = {}           # dotted name -> contract qual
 OPAQUE_CLASSES = {'BindingStatement', 'BlockDeclaration', 'ImportStatement',
                   'IncludeStatement'}
+INLINE_CMS = set()          # quals of small generator context managers executed from source
 VAL_METHOD_CONTRACTS = {}  # method name on an opaque object -> contract qual
 
 
@@ -53,9 +54,12 @@ def resolve_global(ex, fname, name):
         isinstance(n.value, ast.Constant) and isinstance(n.value.value, (str, int, bool)) and \
         name.isupper():
       return ex.ex_Constant(n.value)
+  mods = ex.repo.module_functions(fname)
+  if name in mods and f'{fname}::{name}#ctor' in C.REGISTRY and \
+      ex.contract.strings != 'native' and getattr(ex.contract, 'use_ctor_contracts', False):
+    return VPy('func', f'{fname}::{name}#ctor')      # a class constructed through its contract
   if name in RECORD_CLASSES:
     return VPy('recclass', name)
-  mods = ex.repo.module_functions(fname)
   if name in mods:
     if f'{fname}::{name}#ctor' in C.REGISTRY and ex.contract.strings != 'native':
       return VPy('func', f'{fname}::{name}#ctor')
@@ -773,6 +777,52 @@ def _dict_method(ex, obj, name, args, kwargs, node):
     obj.set(args[0], VBool(True))
     return NONE
   raise OutOfSubset(f'dict.{name}', node)
+
+
+def _cat2(a, b):
+  return sym.ufun('str_concat', sym.Str, sym.Str, sym.Str)(a, b)
+
+
+def _lit_text(e):
+  for s, cst in sym._STR_LITS.items():
+    if cst.eq(e):
+      return s
+  return None
+
+
+def str_cat(parts):
+  """Canonical abstract concatenation: nested concatenations are flattened, adjacent literals
+  merged, empty literals dropped, and the result folded to the right -- so `a + '.' + b`,
+  `f'{a}.{b}'` and `'{}.{}'.format(a, b)` are the same term."""
+  flat = []
+
+  def walk(e):
+    if z3.is_app(e) and e.decl().name() == 'str_concat' and e.num_args() == 2:
+      walk(e.arg(0))
+      walk(e.arg(1))
+    else:
+      flat.append(e)
+  for p in parts:
+    walk(p)
+  out = []
+  for e in flat:
+    t = _lit_text(e)
+    if t == '':
+      continue
+    if t is not None and out and _lit_text(out[-1]) is not None:
+      out[-1] = sym.str_lit(_lit_text(out[-1]) + t)
+    else:
+      out.append(e)
+  if not out:
+    return sym.str_lit('')
+  r = out[-1]
+  for e in reversed(out[:-1]):
+    r = _cat2(e, r)
+  return r
+
+
+def str_concat(a, b):
+  return str_cat([a, b])
 
 
 def str_join(sep, lst):
